@@ -26,6 +26,7 @@ type LoopSpec struct {
 	Invs   []Clause
 	Decr   []Clause
 	Unroll bool
+	CutExits bool // `loop N cutexits`: break/return-free exits out of the loop body are cut like back edges (invariant checked, then assumed on a havocked state)
 }
 
 type Contract struct {
@@ -36,6 +37,7 @@ type Contract struct {
 	Modifies  []Clause
 	HasMod    bool
 	Pure      bool
+	Uses      []Clause // lemma instances assumed in the exit state (before the postconditions are checked)
 	Loops     map[int]*LoopSpec
 	Decreases []Clause
 	Params    []string // explicit names (dependencies)
@@ -237,7 +239,7 @@ func mkClause(text, loc string) (Clause, error) {
 
 var clauseKw = map[string]bool{"props": true, "requires": true, "ensures": true, "modifies": true, "pure": true, "loop": true, "decreases": true,
 	"names": true, "assumed": true, "trusted": true, "noinline": true, "entry": true, "func": true, "dep": true, "spec": true, "lemma": true,
-	"ghost": true, "interface": true, "purepkg": true, "panics": true, "view": true, "pool": true}
+	"ghost": true, "uses": true, "interface": true, "purepkg": true, "panics": true, "view": true, "pool": true}
 
 // parseContractLines parses logical contract lines. pkgRel is the package the file belongs to ("" for spec files).
 func (w *World) parseContractLines(lines []string, locs []string, pkgRel string, assumed bool) error {
@@ -265,6 +267,13 @@ func (w *World) parseContractLines(lines []string, locs []string, pkgRel string,
 		switch kw {
 		case "func", "dep":
 			nm := rest
+			if strings.HasPrefix(nm, "callback ") && strings.Contains(nm, "=") {
+				// dep callback <param or field> = <other callback>: same contract (the value is passed on unchanged)
+				p := strings.SplitN(strings.TrimPrefix(nm, "callback "), "=", 2)
+				w.callbackAlias["callback "+strings.TrimSpace(p[0])] = "callback " + strings.TrimSpace(p[1])
+				cur = nil
+				continue
+			}
 			if pkgRel != "" && !strings.HasPrefix(nm, pkgRel+".") && !strings.HasPrefix(nm, "callback ") {
 				nm = pkgRel + "." + nm
 			}
@@ -430,6 +439,14 @@ func (w *World) parseContractLines(lines []string, locs []string, pkgRel string,
 			case "pure":
 				cur.Pure = true
 				cur.HasMod = true
+			case "uses":
+				for _, u := range splitTop(rest, ';') {
+					cl, err := mkClause(strings.TrimSpace(u), loc)
+					if err != nil {
+						return err
+					}
+					cur.Uses = append(cur.Uses, cl)
+				}
 			case "decreases":
 				for _, m := range splitTop(rest, ',') {
 					cl, err := mkClause(m, loc)
@@ -469,6 +486,8 @@ func (w *World) parseContractLines(lines []string, locs []string, pkgRel string,
 					}
 				case "unroll":
 					ls.Unroll = true
+				case "cutexits":
+					ls.CutExits = true
 				default:
 					return fmt.Errorf("%s: unknown loop clause %q", loc, f[2])
 				}
